@@ -390,9 +390,13 @@ func genC13Action(t *rapid.T, i int, forceSetup bool) c13Action {
 	a.PLMN = rapid.SliceOfN(rapid.Byte(), 3, 3).Draw(t, l+"plmn")
 	a.GnbBits = uint64(rapid.IntRange(22, 32).Draw(t, l+"gnbbits"))
 	if bad == 3 {
-		a.GnbBits = uint64(rapid.SampledFrom([]int{21, 33, 0, 40}).Draw(t, l+"gnbbits_bad"))
+		// just outside 22..32, and far outside with the low octet / low 16 / low 32 bits inside it
+		a.GnbBits = rapid.SampledFrom([]uint64{21, 33, 0, 40, 256 + 24, 256 + 22, 512 + 32, 65536 + 32, 1<<32 + 24, 1<<63 + 22, 1<<64 - 1}).Draw(t, l+"gnbbits_bad")
 	}
-	nb := int(a.GnbBits+7) / 8
+	nb := 4
+	if a.GnbBits <= 40 {
+		nb = int(a.GnbBits+7) / 8
+	}
 	a.GnbID = rapid.SliceOfN(rapid.Byte(), nb, nb).Draw(t, l+"gnbid")
 	if a.GnbBits%8 != 0 && nb > 0 {
 		a.GnbID[nb-1] &= 0xff << (8 - a.GnbBits%8)
